@@ -229,6 +229,44 @@ func (e *Engine) contractFor(fn *ssa.Function) *FuncContract {
 	if root.Pkg != nil {
 		rel := fn.RelString(root.Pkg.Pkg)
 		if c, ok := e.contracts.Funcs[root.Pkg.Pkg.Path()+"::"+rel]; ok {
+			// a function named explicitly also carries the clauses of the first wildcard contract that matches it
+			// (assertions, ghost anchors, marks): wildcard contracts state what holds for every callback of a family
+			if !c.mergedWild {
+				c.mergedWild = true
+				for _, w := range e.contracts.Wild {
+					if w.PkgPath == root.Pkg.Pkg.Path() && globMatch(w.Name, rel) {
+						have := map[string]bool{}
+						for _, a := range c.Asserts {
+							have[a.Anchor+"|"+a.Clause.Label] = true
+						}
+						for _, a := range w.Asserts {
+							if !have[a.Anchor+"|"+a.Clause.Label] {
+								a.Wild = true
+								c.Asserts = append(c.Asserts, a)
+							}
+						}
+						c.GhostSets = append(c.GhostSets, w.GhostSets...)
+						c.GhostClrs = append(c.GhostClrs, w.GhostClrs...)
+						c.Marks = append(c.Marks, w.Marks...)
+						haveR := map[string]bool{}
+						for _, r := range c.Requires {
+							haveR[r.Src] = true
+						}
+						for _, r := range w.Requires {
+							if !haveR[r.Src] {
+								c.Requires = append(c.Requires, r)
+							}
+						}
+						c.Ensures = append(c.Ensures, w.Ensures...)
+						for k, v := range w.Flags {
+							if _, has := c.Flags[k]; !has {
+								c.Flags[k] = v
+							}
+						}
+						break
+					}
+				}
+			}
 			return c
 		}
 	}
